@@ -548,4 +548,66 @@ def geometryValidate (tbl : Table) (mode : Mode) (obj : PyObj) : R Obj :=
 /-- `model_dump_json()` of an accepted object, as `json.loads` reads it back -/
 def dumpDoc (o : Obj) : Doc := .dict (some o.1) (some (dump o.2))
 
+/-! ### `BaseGeometry.geom_type()` and the way the table is built -/
+
+/-- `cls.geom_type()`: the default of the class's `type` field -/
+def Cls.geomType (c : Cls) : String := c.dflt
+
+/-- `GEOMETRY_MAPPING = {geom.geom_type(): geom for geom in ALL_GEOMETRY_TYPES}` (a dict
+    comprehension: a later class with the same key replaces an earlier one; `List.lookup` finds the
+    first pair, hence the `reverse`) -/
+def buildTable (classes : List Cls) : Table := (classes.map fun c => (c.geomType, c)).reverse
+
+/-- the nine classes in the order of `ALL_GEOMETRY_TYPES` / of the `Geometry` union -/
+def allClasses : List Cls := GType.all.map fun ty => ⟨ty, ty.tag, ty.tag⟩
+
+/-- every listed class is one of the nine, with its own name as `Literal` and default of `type`, and
+    each of the nine is listed -/
+def MembersOk (members : List Cls) : Prop :=
+  (∀ c ∈ members, c = ⟨c.ty, c.ty.tag, c.ty.tag⟩) ∧ (∀ ty : GType, ⟨ty, ty.tag, ty.tag⟩ ∈ members)
+
+def membersOkB (members : List Cls) : Bool :=
+  members.all (fun c => c == ⟨c.ty, c.ty.tag, c.ty.tag⟩) &&
+  GType.all.all (fun ty => members.contains ⟨ty, ty.tag, ty.tag⟩)
+
+/-! ### A field annotated `Geometry` (the `Union` of the classes): the construction path of every
+    model that holds a geometry (`SoundEvent.geometry`, the AOEF `SoundEventObject.geometry`) -/
+
+/-- pydantic validating one value against `Union[members…]` (smart mode): every member class is
+    tried with its own validation (python mode, `from_attributes` off); an exception that is not a
+    validation error escapes from whichever member raised it; otherwise the first member that
+    accepted wins – for an input that carries a type tag at most one member can accept
+    (`C03_union_unique`), so pydantic's exactness ranking among several successes cannot matter
+    there; it is *not* modelled for tag-less inputs. -/
+def pickUnion : List (R Obj) → R Obj
+  | [] => bad
+  | r :: rs =>
+    match r, pickUnion rs with
+    | .error .crash, _ => crash
+    | _, .error .crash => crash
+    | .ok o, _ => .ok o
+    | .error .invalid, rest => rest
+
+def unionValidate (members : List Cls) (src : Source) : R Obj :=
+  pickUnion (members.map fun c => classValidate c false src)
+
+/-! ### An existing geometry instance handed to `geometry_validate` -/
+
+/-- `cls.model_validate(inst, …)` for an `inst` that is itself an instance of geometry class
+    `inst.1`: pydantic returns an instance of the requested class *as it is*
+    (`revalidate_instances = 'never'`, the default) – its fields are not looked at; an instance of
+    another class is read like any other attribute object.  (Instances whose `coordinates` still
+    have the shape of their class: `Obj` cannot hold anything else.) -/
+def classValidateInstance (c : Cls) (fromAttributes : Bool) (inst : Cls × Obj) : R Obj :=
+  if inst.1 = c then .ok inst.2
+  else classValidate c fromAttributes (.object (some inst.2.1) (some (dump inst.2.2)))
+
+/-- `geometry_validate(inst, mode)`: not a `str`, not a `dict`; it has a `type` attribute -/
+def geometryValidateInstance (tbl : Table) (mode : Mode) (inst : Cls × Obj) : R Obj :=
+  if mode = .json ∨ mode = .dict then bad
+  else
+    match tbl.lookup inst.2.1 with
+    | none => bad
+    | some c => classValidateInstance c (mode = .attributes) inst
+
 end SE.Validate
